@@ -11,6 +11,7 @@ EXPLANATION = (
     "located variant and ends in exit(1)), TC + GW (checkers descend into every branch, behind every definition and over every automaton state), "
     "CYCSEED (the cycle search is started from every vertex of the dependency graph, not only from vertices nothing depends on). "
     "NOT decided: the converse direction (every clean grammar is accepted) beyond C06's no-panic clause."
+    " ENDS (C13), RP of the description / level passes (C02) and FIELDCOVER of the level getter (C02/C06) are shared: the checks see what the earlier passes hand them."
 )
 ASSUMPTIONS = ["rustc accepts the tree", "tables/tree.toml allowed drops"]
 
